@@ -562,3 +562,35 @@ def flat_slice(ctx, fi, expr, at):
     if sym is not None:
         return (base, nlo, None, sym) if ilo == 0 else None
     return (base, nlo if ihi is None else min(nlo, ihi), ihi, isym)
+
+
+def lin_form(ctx, fi, expr, at):
+    """canonical linear form of an integer expression at cfg node `at`: (constant, ((term text, coefficient), ...)) with local
+    temporaries replaced by their values (sym_expr), constants folded and +, -, unary minus and multiplication by a constant
+    distributed; anything else is an opaque term.  None when a part does not reduce."""
+    node = defuse_of(fi).cfg.node_of(at) if not hasattr(at, "id") and not isinstance(at, int) else at
+    e = sym_expr(fi, expr, node) if node is not None else expr
+
+    def rec(x):
+        v = fold_int(ctx, fi, x)
+        if v is not None:
+            return (v, {})
+        if isinstance(x, ast.BinOp) and isinstance(x.op, (ast.Add, ast.Sub)):
+            a, b = rec(x.left), rec(x.right)
+            sgn = 1 if isinstance(x.op, ast.Add) else -1
+            terms = dict(a[1])
+            for k, c in b[1].items():
+                terms[k] = terms.get(k, 0) + sgn * c
+            return (a[0] + sgn * b[0], terms)
+        if isinstance(x, ast.UnaryOp) and isinstance(x.op, ast.USub):
+            a = rec(x.operand)
+            return (-a[0], {k: -c for k, c in a[1].items()})
+        if isinstance(x, ast.BinOp) and isinstance(x.op, ast.Mult):
+            for (p_, q_) in ((x.left, x.right), (x.right, x.left)):
+                c = fold_int(ctx, fi, p_)
+                if c is not None:
+                    a = rec(q_)
+                    return (c * a[0], {k: c * v_ for k, v_ in a[1].items()})
+        return (0, {norm(x): 1})
+    c, terms = rec(e)
+    return (c, tuple(sorted((k, v) for k, v in terms.items() if v != 0)))
